@@ -5,12 +5,14 @@ package c14
 import (
 	"fmt"
 	"os"
+	"runtime/debug"
 	"sort"
 	"strings"
 	"sync"
 	"time"
 
 	cluster "github.com/envoyproxy/go-control-plane/envoy/config/cluster/v3"
+	corev3 "github.com/envoyproxy/go-control-plane/envoy/config/core/v3"
 	endpoint "github.com/envoyproxy/go-control-plane/envoy/config/endpoint/v3"
 	listener "github.com/envoyproxy/go-control-plane/envoy/config/listener/v3"
 	route "github.com/envoyproxy/go-control-plane/envoy/config/route/v3"
@@ -231,11 +233,17 @@ var portPool = []portSpec{{80, "http", "HTTP"}, {80, "tcp", "TCP"}, {443, "https
 	{80, "auto80", ""}, {27017, "mongo", "Mongo"}, {8080, "h2", "HTTP2"}}
 
 type world struct {
-	yamls     []string
-	features  []string
-	translate bool     // the router's Service maps 443 -> 8443 and 80 -> 8080
-	sniffed   []string // "host:port" route names of auto-protocol services
-	bypass   []string // objects the admission validator rejects (with reason)
+	yamls      []string
+	features   []string
+	translate  bool     // the router's Service maps 443 -> 8443 and 80 -> 8080
+	sniffed    []string // "host:port" route names of auto-protocol services
+	tlsHosts   []string // hosts of TLS/HTTPS-port services (reused by tls VirtualServices)
+	locHosts   []string // hosts of multi-locality services (reused by DestinationRules)
+	gateways   []string
+	locality   *corev3.Locality // proxy locality
+	dualStack  bool
+	dnsCapture bool
+	bypass     []string // objects the admission validator rejects (with reason)
 }
 
 func (w *world) add(y string, feats ...string) {
@@ -599,29 +607,10 @@ func genPushes(c *vlib.Collector, id *int, r *vlib.Rand) {
 			continue
 		}
 		var w *world
-		switch wi % 6 {
-		case 0:
-			w = genWorld(s, false)
-		case 1, 5:
-			w = &world{}
-			genGatewayScenario(s, w)
-			if s.Chance(30) {
-				genServiceEntry(s, w, 7, false)
-			}
-		case 2:
-			w = &world{}
-			genSniffScenario(s, w)
-			if s.Chance(30) {
-				genServiceEntry(s, w, 7, false)
-			}
-		case 3:
-			w = &world{}
-			genEnvoyFilterScenario(s, w)
-			if s.Chance(30) {
-				genSniffScenario(s, w)
-			}
-		default:
-			w = genWorld(s, true)
+		if wi%6 == 4 {
+			w = genWorld(s, true) // admission-bypassing stream
+		} else {
+			w = genFeatureWorld(s)
 		}
 		cfgs, err := w.configs()
 		if err != nil {
@@ -641,8 +630,20 @@ func genPushes(c *vlib.Collector, id *int, r *vlib.Rand) {
 				Labels:   map[string]string{"istio": "ingressgateway"},
 				Metadata: &model.NodeMetadata{Namespace: "istio-system", Labels: map[string]string{"istio": "ingressgateway"}}},
 			{Type: model.Waypoint, ConfigNamespace: "ns1", IPAddresses: []string{"10.10.0.3"}, ID: "waypoint.ns1",
-				Labels: map[string]string{"gateway.istio.io/managed": "istio.io-mesh-controller"},
+				Labels:   map[string]string{"gateway.istio.io/managed": "istio.io-mesh-controller"},
 				Metadata: &model.NodeMetadata{Namespace: "ns1", Labels: map[string]string{"gateway.istio.io/managed": "istio.io-mesh-controller"}}},
+		}
+		for _, p := range proxies {
+			p.Locality = w.locality
+			if p.Locality == nil {
+				p.Locality = &corev3.Locality{} // a connected proxy never has a nil locality (ads.go setTopologyLabels)
+			}
+			if w.dualStack {
+				p.IPAddresses = append(p.IPAddresses, "fd00::"+p.IPAddresses[0][len(p.IPAddresses[0])-1:])
+			}
+			if w.dnsCapture {
+				p.Metadata.DNSCapture = true
+			}
 		}
 		for pi, p := range proxies {
 			pid := baseID + 1 + 3*pi
@@ -672,7 +673,8 @@ func dumpFCM(m *listener.FilterChainMatch) string {
 
 func onePush(c *vlib.Collector, pid int, srv *xdsfake.FakeDiscoveryServer, p0 *model.Proxy, w *world) {
 	ptype := string(p0.Type)
-	sample := map[string]any{"kind": "full push", "proxy": ptype, "objects": w.yamls, "rejected_by_admission": w.bypass}
+	sample := map[string]any{"kind": "full push", "proxy": ptype, "objects": w.yamls, "rejected_by_admission": w.bypass,
+		"features": sets.SortedList(sets.New(w.features...))}
 	violate := func(kind, detail string) {
 		c.Violate(vlib.Violation{ID: pid, Kind: kind, Detail: detail, Case: sample})
 	}
@@ -694,7 +696,7 @@ func onePush(c *vlib.Collector, pid int, srv *xdsfake.FakeDiscoveryServer, p0 *m
 		}
 		return out
 	}
-	pan, msg := vlib.Recover(func() {
+	pan, msg := recoverStack(func() {
 		p = srv.SetupProxy(p0)
 		if w.translate && p.Type == model.Router {
 			p.ServiceTargets = routerServiceTargets()
@@ -988,6 +990,12 @@ func findingFor(diag []string, w *world) string {
 			if fid == "" {
 				fid = "C14-endpoint-weight-sum-overflow"
 			}
+		case strings.HasPrefix(d, "duplicate-filter-chain-match in listener ") && strings.Contains(d, " [plain+plain]: prefix_ranges:") &&
+			strings.Contains(d, "server_names:") && feats.Contains("vs-tls-destination-subnets"):
+			// a tls match's destinationSubnets leak into the following matches of the same service port
+			if fid == "" || fid == "C14-endpoint-weight-sum-overflow" {
+				fid = "C14-tls-destination-subnets-leak"
+			}
 		case strings.HasPrefix(d, "duplicate-filter-chain-match in listener 0.0.0.0_") && strings.Contains(d, " [plain+tls-terminating]: server_names:") && feats.Contains("gw"):
 			// an HTTPS (terminating) server and a passthrough TLS route claim the same SNI on one listener
 			if fid == "" || fid == "C14-endpoint-weight-sum-overflow" {
@@ -1013,4 +1021,25 @@ func overflowsU32(d string) bool {
 		return false
 	}
 	return v > 4294967295
+}
+
+// recoverStack is vlib.Recover plus the innermost istio frames of the panic (for the violation detail).
+func recoverStack(f func()) (panicked bool, msg string) {
+	defer func() {
+		if r := recover(); r != nil {
+			panicked = true
+			var fr []string
+			for _, l := range strings.Split(string(debug.Stack()), "\n") {
+				if strings.Contains(l, "istio.io/istio") && strings.Contains(l, ".go:") && !strings.Contains(l, "vlib") {
+					fr = append(fr, strings.TrimSpace(l))
+				}
+				if len(fr) >= 6 {
+					break
+				}
+			}
+			msg = fmt.Sprint(r) + " @ " + strings.Join(fr, " <- ")
+		}
+	}()
+	f()
+	return
 }
